@@ -445,6 +445,14 @@ class Hist:
                 self.v("C05", i, "node subscription accepted in a denomination the node does not quote")
             elif escrowed != quote * (gb if gb else hr):
                 self.v("C05", i, "node subscription escrowed %d, quoted price %d x quantity %d" % (escrowed, quote, gb if gb else hr))
+            if hr and quote is not None:
+                # the hourly payout of the new subscription is booked at exactly the quoted hourly price (what each later
+                # payout pays, and what the refund of the unpaid hours is computed from)
+                old = set(self.payouts(prev))
+                for pid_, po in self.payouts(st).items():
+                    if pid_ not in old and (int(po["price"][0]) != dn or I(po["price"][1]) != quote):
+                        self.v("C05", i, "hourly subscription %d booked a payout price of %s (denom %s), quoted hourly price %d (denom %d)" %
+                               (pid_, po["price"][1], po["price"][0], quote, dn))
             sender = toks[2].lower().split(":", 1)[1]
             pb = coins_dict(prev["bal"].get(sender, {})).get(dn, 0)
             nb = coins_dict(st["bal"].get(sender, {})).get(dn, 0)
